@@ -145,8 +145,8 @@ def run(pid, tier):
             rep.broken.append('alphabet %s: implementation reaches %d abstract states, specification %d' % (a, len(proj), r.distinct))
         os.unlink(w + '/x.ndjson')
     steps = 60000 if tier == 'quick' else 600000
-    for cap in (1, 3):
-        d = lib.run_driver(exe, ['walk', lib.seed() * 7 + cap, steps // 2, cap, w + '/walk.ndjson'])
+    for cap in (1, 3, 256):
+        d = lib.run_driver(exe, ['walk', lib.seed() * 7 + cap, (steps // 2) if cap < 256 else 3000, cap, w + '/walk.ndjson'])
         if d['rc'] != 0:
             rep.violation('driver-failure', dict(mode='walk', rc=d['rc'], stderr=d['stderr'].decode(errors='replace')[-2000:]))
         else:
